@@ -64,16 +64,17 @@ type held struct {
 }
 
 type histState struct {
-	c        *common.Ctx
-	pooled   map[reflect.Type]bool
-	held     []*held
-	released map[uintptr]bool // addresses of pooled nodes of trees released in this history
-	lint     *linter.Linter
-	scanner  *security.Scanner
-	reuse    int
-	failed   bool
-	acted    bool // the current step found something to act on
-	ref      *reference
+	dirtySeen map[reflect.Type]bool
+	c         *common.Ctx
+	pooled    map[reflect.Type]bool
+	held      []*held
+	released  map[uintptr]bool // addresses of pooled nodes of trees released in this history
+	lint      *linter.Linter
+	scanner   *security.Scanner
+	reuse     int
+	failed    bool
+	acted     bool // the current step found something to act on
+	ref       *reference
 }
 
 // reference holds the strict dumps of what the parse operations return when every pool is empty.
@@ -559,6 +560,33 @@ func runHistory(c *common.Ctx, ops []op, seq []int, targets []*cleanTarget, pool
 // statements held or parsed internally per step).
 const auditSlack = 6
 
+var freshRes = map[reflect.Type]map[string]bool{}
+
+// freshResidues is what a newly constructed object of the target's type looks like to residues() (pre-sized
+// slices and the like); computed once per type from a zero value run through the pool's constructor when the
+// pools are empty, see primeFresh.
+func freshResidues(tg *cleanTarget) map[string]bool {
+	return freshRes[tg.Type]
+}
+
+// primeFresh must run while the pools are empty.
+func primeFresh(targets []*cleanTarget) {
+	for _, tg := range targets {
+		if tg.Get == nil || freshRes[tg.Type] != nil {
+			continue
+		}
+		m := map[string]bool{}
+		if rv := reflect.ValueOf(tg.Get()); rv.Kind() == reflect.Ptr && rv.Elem().Kind() == reflect.Struct {
+			var ref []residue
+			residues(rv.Elem(), tg.Pool.Elem, false, &ref)
+			for _, r := range ref {
+				m[r.Path+"|"+r.What] = true
+			}
+		}
+		freshRes[tg.Type] = m
+	}
+}
+
 // audit empties the pools at the end of a history through the public Get functions.  The pools were
 // empty when the history started, so everything they hold was released during it.  An object that
 // comes out twice was put twice (two later holders would own the same node); an object that is part
@@ -591,6 +619,24 @@ func (h *histState) audit(targets []*cleanTarget, bound map[reflect.Type]int) {
 				break
 			}
 			seen[a] = true
+			// whatever release path brought it here (its own Put function, or as a child of any other node), a
+			// pooled object must look like a newly constructed one
+			if rv := reflect.ValueOf(g); rv.Kind() == reflect.Ptr && rv.Elem().Kind() == reflect.Struct && !h.dirtySeen[tg.Type] {
+				var got []residue
+				residues(rv.Elem(), tg.Pool.Elem, false, &got)
+				ref := freshResidues(tg)
+				for _, r := range got {
+					if !ref[r.Path+"|"+r.What] && !r.Stale {
+						if h.dirtySeen == nil {
+							h.dirtySeen = map[reflect.Type]bool{}
+						}
+						h.dirtySeen[tg.Type] = true
+						h.failed = true
+						h.c.Fail("dirty-in-pool:"+r.Path, fmt.Sprintf("at the end of the history %s returned a %s that still carries a previous holder's content: %s = %s", tg.GetBy, tg.Pool.Elem, r.Path, r.What))
+						break
+					}
+				}
+			}
 			if d, ok := live[a]; ok {
 				h.failed = true
 				h.c.Fail("live-node-in-pool:"+tg.Pool.Elem,
